@@ -775,7 +775,10 @@ class Full(Engine):
         signed = kwargs.get("signed", False)
         if self.is_sym(n) and not self.is_sym(signed) and not signed and self.mode == "int":
             # byte string of symbolic length: kept as an ideal string standing for the integer (length = n)
-            bad = x < 0
+            cap = z3.IntVal(1 << 128)          # lengths above 16 octets: values of the VCs stay below 2^128 (magnitude bounds)
+            for k in range(16, -1, -1):
+                cap = z3.If(n <= k, z3.IntVal(1 << (8 * k)), cap)
+            bad = z3.Or(x < 0, x >= cap)          # int.to_bytes raises OverflowError when the value does not fit into `length` octets
             if self.pybool(z3.simplify(bad)) is not False:
                 self.raises.append((z3.And(pc, bad), OverflowError))
             o = Opaque("int-bytes")
